@@ -141,7 +141,7 @@ def windows_path(r) -> tuple[bytes, str]:
         segs.append(b"." if x < 0.08 else b".." if x < 0.2 else _wseg(r))
     fname = _wseg(r) + r.choice([b".txt", b".exe", b".dll", b".pdf", b"", b".DLL", b".xlsx"])
     host = r.choice([domain(r), ipv4(r), _wseg(r), b"0x7f.0.0.1", b"system07", domain(r) + b".", b"0300.0250.012.024", b"127.1", b"3232238100",
-                     b"010.1.1.1"])
+                     b"010.1.1.1", b"7", b"10", b"1"])
     if shape == 0:
         pre, t = bytes([r.choice(b"CDEcdz")]) + b":\\", "windows.path"
     elif shape == 1:
@@ -265,7 +265,10 @@ def url(r, escapes=True) -> dict:
         host = r.choice([b"foo%40bar.com", b"1.2.3.4%20", b"ex%2Fample.com", b"a%3Ab.example.org", b"%20example.com"])
     elif hk == "ipv6":
         host = r.choice([b"[::1]", b"[2001:db8::1]", b"[fe80::1:2:3:4]", b"[0:0:0:0:0:0:0:1]", b"[2001:db8::c0de]", b"[2001:DB8::C0DE]",
-                         b"[FE80::A:B:C:D]", b"[::ffff:1.2.3.4]".replace(b".", b":")])
+                         b"[FE80::A:B:C:D]", b"[::ffff:1.2.3.4]".replace(b".", b":"),
+                         # special-purpose ranges: IPv4-mapped / -compatible in hexadecimal groups, unspecified, 6to4, NAT64, multicast
+                         b"[::ffff:7f00:1]", b"[0:0:0:0:0:FFFF:0A00:0005]", b"[::ffff:0:0]", b"[::7f00:1]", b"[::]", b"[2002:c000:204::]",
+                         b"[64:ff9b::c000:201]", b"[ff02::1]", b"[fc00::1]", b"[::ffff:ffff:ffff]"])
     elif hk == "ipv6-esc":
         host = r.choice([b"[%3A%3A1]", b"%5B::1%5D", b"%5b::1]", b"[2001:db8:%3A1]", b"[::%31]"])
     else:
@@ -315,13 +318,16 @@ def url(r, escapes=True) -> dict:
         path = b"/" + b"/".join(segs)
         if r.random() < 0.2:
             path += b"/"
-    qk = r.choice(["none"] * 3 + ["kv", "kv", "empty", "esc", "ioc", "delims"])
+    qk = r.choice(["none"] * 3 + ["kv", "kv", "empty", "esc", "ioc", "delims", "pctsign"])
     if qk == "none":
         query = None
     elif qk == "kv":
         query = b"&".join(bytes(r.choice(LOWER) for _ in range(r.randint(1, 4))) + b"=" + bytes(r.choice(LOWER + DIGITS) for _ in range(r.randint(0, 6))) for _ in range(r.randint(1, 3)))
     elif qk == "ioc":
         query = b"u=" + domain(r) + b"&i=" + ipv4(r) + r.choice([b"", b"&f=" + exe_name(r)])
+    elif qk == "pctsign":
+        # a per cent sign followed by a sign or white-space-like character and hexadecimal letters is not an escape
+        query = r.choice([b"off=20%-everything", b"x=%+ab", b"p=50%-a1", b"q=%+f", b"r=100%_ab", b"s=%0xab"])
     elif qk == "delims":
         # the delimiters of the other components are ordinary characters inside a query
         query = r.choice([b"next=/a/b?c=d", b"u=x:y@z", b"a=b?c", b"q=//x/../y", b"r=http://" + domain(r) + b"/p?x=1"])
